@@ -254,8 +254,12 @@ def c01(tier, repo=None):
                 ("p2m", consts("pregel", 2, 4, 1, 2, multi=True, maxchoice=(0, 2), ends=3), {}),
                 ("p4s", consts("pregel", 4, 7, 2, 2, multi=True, maxchoice=(5,), ends=3), {"simulate": "num=60000", "depth": 14, "seed": vlib.SEED, "workers": 1})]
         models = ["MC_EinoRun_pregel2.cfg", "MC_EinoRun_pregel3.cfg"]
+    def chains(rnd):
+        scs, run = engine.gen_chains("ChainGen_q.cfg" if tier == "quick" else "ChainGen_t.cfg")
+        log("  family chain: %d chain scenarios (stage sequences x branch policies, TLC %d states) with their lowering" % (len(scs), run.distinct))
+        return scs
     return run_engine_check("C01", tier, model_cfgs=models, families=fams, decorate_kw={"echo_frac": 0.12}, nontrivial=nontrivial,
-                            nest_frac=0.08, repo=repo,
+                            nest_frac=0.08, repo=repo, extra_scenarios=chains,
                             assumptions=["graphs in which an edge and a branch of one source target the same node are outside the universe"])
 
 
